@@ -180,7 +180,7 @@ theorem loadIndex_scan_ge (m : Nat) : ∀ (dataI : List (Nat × FileSt)) (gI : G
     have hok' : ∀ x ∈ g', ∀ r ∈ x.2, RecOK r := fun x hx => hok x (by simp [hx])
     have hidm : ¬ id < m := by have := hge y (by simp); omega
     simp only [List.cons_append, loadIndex, if_neg hidm]
-    rw [loadFile_ghost r id y.2 fs hoky]
+    rw [loadFile_ghost r id y.2 fs _ hoky]
     simp only []
     rw [ih g' _ rest hm' hok' (fun z hz => hge z (by simp [hz])), logOf_cons, replayFrom_append, hid]
     unfold replayFrom
